@@ -7,6 +7,12 @@ C06.esc    the writer never prints raw an octet the zone-file reader treats
            disjoint from the reader's token delimiters.
 C06.mn     class and record-type mnemonics are disjoint (the reader tries the
            record type first), and each table is an injective two-way map.
+C06.block  every zone-file writer opens and closes groups symmetrically: `(`
+           is written by begin_block exactly when `)` is written by end_block
+           (both unconditionally, or both never).
+C06.entry  convert_entry reads a token only after establishing that the entry
+           has not ended (so an empty last field - `\\# 0`, an empty key -
+           reads back as empty data instead of an error).
 C06.label  the in-place reader accepts labels of up to exactly 63 octets (cap
            = start + 65 for the write cursor), like Label's own limit.
 """
@@ -30,6 +36,8 @@ def run(ctx):
     rule_esc(ctx, F)
     rule_mn(ctx, F)
     rule_label(ctx, F)
+    rule_block(ctx, F)
+    rule_entry(ctx, F)
 
 
 # ---------------------------------------------------------------------------
@@ -429,3 +437,80 @@ def _eval(rv, env, mem):
             out[s] = out.get(s, 0) + v
         return out
     return None
+
+
+# ---------------------------------------------------------------------------
+# parentheses are written in pairs
+# ---------------------------------------------------------------------------
+
+def _token_sites(b, ch):
+    """blocks of b that emit the literal character ch (format_args!(ch) / write_str / write_char)"""
+    out = []
+    for bi, t in b.calls():
+        fn = t["fn"] or ""
+        if re.search(r"fmt::Arguments::<'\w+>::(from_str|new|new_const)", fn) or fn.endswith("::write_str") or fn.endswith("::write_char"):
+            for a in t["args"]:
+                if a[0] == "k":
+                    v = a[2]
+                    if (isinstance(v, str) and ch in v) or (isinstance(v, list) and ord(ch) in v):
+                        out.append(bi)
+    return out
+
+
+def rule_block(ctx, F):
+    R = "C06.block"
+    ctx.floor(R, 3)
+    n = 0
+    for im in F.impls:
+        if im["trait"] != "base::zonefile_fmt::FormatWriter":
+            continue
+        bb_ = eb_ = None
+        for it in im["items"]:
+            if it["name"] == "begin_block":
+                bb_ = F.bodies.get(it["path"])
+            if it["name"] == "end_block":
+                eb_ = F.bodies.get(it["path"])
+        if bb_ is None or eb_ is None:
+            continue
+        n += 1
+
+        def mode(b, ch):
+            sites = _token_sites(b, ch)
+            if not sites:
+                return "never"
+            oks = [r[0] for r in return_assignments(b) if r[2] == "Ok"] or list(b.return_blocks())
+            # unconditional: every path from entry to a normal return passes a site
+            reach = b.reach_from(0, removed_blocks=sites)
+            if 0 in sites:
+                return "always"
+            errs = {r[0] for r in return_assignments(b) if r[2] == "Err"}
+            passes = [rb for rb in oks if rb in reach]
+            return "always" if not passes else "sometimes"
+        mo, mc = mode(bb_, "("), mode(eb_, ")")
+        ctx.ob(R, bb_, "`(` and `)` written under the same condition", mo == mc and mo != "sometimes",
+               "impl FormatWriter for %s: begin_block writes `(` %s but end_block writes `)` %s: nested or repeated "
+               "groups come out with unbalanced parentheses and the zone-file reader rejects the record"
+               % (im["self_ty"], mo, mc))
+    ctx.anchor(R, "impls of FormatWriter", n >= 3)
+
+
+# ---------------------------------------------------------------------------
+# an entry may end before the first converted token
+# ---------------------------------------------------------------------------
+
+def rule_entry(ctx, F):
+    R = "C06.entry"
+    ctx.floor(R, 1)
+    bs = [b for p, b in F.bodies.items() if re.search(r"EntryScanner<'_> as base::scan::Scanner>::convert_entry$", p)]
+    if not ctx.anchor(R, "<EntryScanner as Scanner>::convert_entry", len(bs) == 1):
+        return
+    b = bs[0]
+    toks = [bb for bb, t in b.calls() if re.search(r"EntryScanner::<'_>::convert_one_token$|::convert_one_token$", t["fn"] or "")]
+    if not ctx.anchor(R, "convert_one_token call in convert_entry", len(toks) >= 1, b.where()):
+        return
+    for i, bb in enumerate(toks):
+        ok = any(tt[0] == "call" and (tt[1] or "").endswith("is_line_feed") and vv is False for tt, vv in bool_facts(b, bb, F))
+        ctx.ob(R, b, "token#%d converted only while the entry has not ended" % (i + 1), ok,
+               "convert_entry converts a token without first checking that the entry has not ended (no dominating "
+               "is_line_feed() == false): an entry whose last field is empty (`\\# 0`, an empty key or digest) fails "
+               "with 'unexpected end of entry' instead of yielding empty data", b.where(bb))
